@@ -59,6 +59,11 @@ def book_rows(book, first_ask_off=1, first_bid_off=1, mark=None):
 
 
 def make_world(book, touch=False):
+    configure(touch)
+    return _make_world(book, touch)
+
+
+def _make_world(book, touch=False):
     """touch=True puts the best ask / best bid exactly ON the mark (bids <= mark <= asks allows equality)."""
     from demeter._typing import USD
     from mc.worlds import deribit as db
@@ -78,6 +83,11 @@ def make_world(book, touch=False):
         # cheap: the best ask sits on the mark (0.002, cap binds) and the next ones above 0.0024 (flat fee binds): an order sweeping both mixes the two terms
         asks, bids = book_rows(book, 0 if touch == "cheap" else 1, 1, mk)
         c1_mark = float(mk)
+    elif touch == "btc":
+        # the BTC market trades in tenths of a contract; level sizes are whole numbers stored as ints (as a json / csv loader delivers them)
+        asks, bids = book_rows(book, 1, 1)
+        asks, bids = [[p, int(a)] for p, a in asks], [[p, int(a)] for p, a in bids]
+        c1_mark = float(MARK["C1"])
     else:
         asks, bids = book_rows(book, 0 if touch else 1, 0 if touch else 1)
         c1_mark = float(MARK["C1"])
@@ -87,10 +97,21 @@ def make_world(book, touch=False):
     prices = db.price_frame(data)
     index = data.index.get_level_values(0).unique()
 
+    if touch == "btc":
+        prices = prices.rename(columns={"ETH": "BTC"})
+
     def build():
-        m = db.make_market(data)
+        if touch == "btc":
+            from demeter import MarketInfo, MarketTypeEnum
+            from demeter.deribit import DeribitOptionMarket
+
+            m = DeribitOptionMarket(MarketInfo("deribit", MarketTypeEnum.deribit_option), DeribitOptionMarket.BTC, data=data)
+            wallet = [(DeribitOptionMarket.BTC, 5)]
+        else:
+            m = db.make_market(data)
+            wallet = [(db.ETH, 5)]
         ad = db.DeribitAdapter(m, data)
-        ctx = Ctx("deribit", prices, USD, [ad], [(db.ETH, 5)], index)
+        ctx = Ctx("deribit", prices, USD, [ad], wallet, index)
         ctx.begin_bar(0)
         m.deposit(Decimal(3))
         ctx.model = ref_init(bk, Decimal(3))
@@ -112,20 +133,30 @@ def ref_init(bk, cash):
                           "bids": [[F(Decimal(str(p))), F(Decimal(str(a)))] for p, a in v["bids"]]} for k, v in bk.items()}}
 
 
+CFG = {"step": Decimal(1), "fee_q": Decimal("1e-6")}  # ETH contracts: whole contracts, fees to 1e-6; BTC: 0.1 contracts, fees to 1e-8 (set per partition)
+
+
+def configure(touch):
+    if touch == "btc":
+        CFG.update(step=Decimal("0.1"), fee_q=Decimal("1e-8"))
+    else:
+        CFG.update(step=Decimal(1), fee_q=Decimal("1e-6"))
+
+
 def round_amount(a: Decimal) -> Decimal:
-    if a < 1:
-        return Decimal(1)
-    return a.quantize(Decimal(1), rounding=ROUND_HALF_UP)
+    if a < CFG["step"]:
+        return CFG["step"]
+    return a.quantize(CFG["step"], rounding=ROUND_HALF_UP)
 
 
 def r6(fr: Fraction) -> Fraction:
-    d = (Decimal(fr.numerator) / Decimal(fr.denominator)).quantize(Decimal("1e-6"), rounding=ROUND_HALF_UP)
+    d = (Decimal(fr.numerator) / Decimal(fr.denominator)).quantize(CFG["fee_q"], rounding=ROUND_HALF_UP)
     return F(d)
 
 
 def ref_fill(md, ins, side, amt: Decimal, mode, mark, inclusive=False):
     """-> (fills [(price, size)], n) or None when the model says the order cannot be filled as the property demands."""
-    if ins not in md["book"] or amt < 1:
+    if ins not in md["book"] or amt < CFG["step"]:
         return None
     n = F(round_amount(amt))
     levels = md["book"][ins]["asks" if side == "buy" else "bids"]
@@ -186,6 +217,7 @@ def ref_apply(md, ins, side, fills, n):
 # ---- alphabet --------------------------------------------------------------------------------------------------------------
 AMOUNTS = ["1", "2", "3", "6", "2.4", "2.5", "0.4", "14"]
 QUICK_AMOUNTS = ["1", "2", "3", "6", "2.5", "14"]
+BTC_AMOUNTS = ["0.5", "1.5", "2", "0.04", "2.45", "6"]
 
 
 def alphabet(world, amounts):
@@ -290,7 +322,7 @@ class Oracle:
                         rf = alt
                         part.count("on_cap_level_read_as_inside")
             held = md["pos"].get(ins, {}).get("amount", Fraction(0))
-            n = F(round_amount(amt)) if amt >= 1 else None
+            n = F(round_amount(amt)) if amt >= CFG["step"] else None
             part.count(f"{side}.{'acc' if out.ok else 'rej'}")
             if out.ok:
                 if rf is None:
@@ -388,6 +420,8 @@ def run_partition(args):
     world = make_world(book, touch)
     part = Part(seed)
     orc = Oracle(part, world, book, touch)
+    if touch == "btc":
+        amounts = BTC_AMOUNTS
     stats = kit.explore(world.build, alphabet(world, amounts), depth, max_dev, orc.on_transition, on_state=orc.on_state, roots=((),))
     r = part.result()
     r["stats"] = stats
@@ -402,6 +436,7 @@ def main(run: Run):
     jobs += [(run.seed, b, True, depth, max_dev, amounts) for b in bks if len(b[0]) >= 1 and len(b[1]) >= 1][:: (1 if run.thorough else 3)]
     jobs += [(run.seed, b, "dyadic", depth, max_dev, amounts) for b in (((5, 2), (5, 2)), ((2, 5, 1), (1, 5)), ((1, 1), (2, 2, 2)))]
     jobs += [(run.seed, b, t, depth, max_dev, amounts) for t in ("cheap", "deep") for b in (((5, 2, 1), (5, 2, 1)), ((1, 2, 5), (2, 2)), ((2, 2), (1, 5, 2)))]
+    jobs += [(run.seed, b, "btc", depth, max_dev, amounts) for b in (((5, 2), (5, 2)), ((2, 5, 1), (1, 5)), ((1, 2, 5), (2, 2)))]
     jobs = run.rotate(jobs)
     tot = {"states": 0, "transitions": 0, "complete": 0, "distinct_outcomes": 0, "accepted": 0, "rejected": 0}
     for r in pmap(run_partition, jobs):
@@ -434,7 +469,7 @@ def replay(run: Run, path):
     part = Part()
     orc = Oracle(part, world, book, case.get("touch", False))
     ctx = world.build()
-    alph = alphabet(world, AMOUNTS)
+    alph = alphabet(world, BTC_AMOUNTS if case.get("touch") == "btc" else AMOUNTS)
     hist = case["history"]
     for i, lab in enumerate(hist):
         ops = {o.label: o for o in alph(ctx)}
